@@ -262,7 +262,7 @@ pub static C02: OscProp = OscProp {
 
 pub static C03: OscProp = OscProp {
     id: "C03",
-    families: &[Family::Condvar, Family::Sync2, Family::Park, Family::Chan, Family::Sem, Family::Locks, Family::Async, Family::SemAsync, Family::Mixed],
+    families: &[Family::Condvar, Family::Sync2, Family::Park, Family::Chan, Family::Sem, Family::Locks, Family::Async, Family::Async, Family::AsyncBlock, Family::SemAsync, Family::Mixed],
     judge: Judge::Both,
     nontrivial: |p, r| (r.model_has_deadlock && r.model_has_pass) || (r.model_has_deadlock && uses(p, |o| matches!(o, Op::Park | Op::DropHandle(_) | Op::EvWait(_)))),
     max_tasks: 4,
@@ -317,12 +317,12 @@ pub static C06: OscProp = OscProp {
 
 pub static C17: OscProp = OscProp {
     id: "C17",
-    families: &[Family::Async],
+    families: &[Family::Async, Family::Async, Family::AsyncBlock],
     judge: Judge::Both,
     nontrivial: |p, _r| {
         // two tasks touch one Event (a wake can land between a Pending return and the task going to sleep), or an abort races completion
         two_contenders(p, |o| match o {
-            Op::EvWait(e) | Op::EvSet(e) | Op::EvWake(e) => Some(*e),
+            Op::EvWait(e) | Op::EvSet(e) | Op::EvWake(e) | Op::EvWaitThen(e, _, _) => Some(*e),
             _ => None,
         }) || uses(p, |o| matches!(o, Op::Abort(_)))
     },
